@@ -12,7 +12,8 @@ T3 = ["<select>", "</select>", "<option>", "</option>", "<optgroup>", "</optgrou
       "<td>", "x", "<b>", "<script>", "</table>", "<keygen>", "</td>"]
 T4 = ["<!DOCTYPE html>", '<!DOCTYPE q PUBLIC "-//W3C//DTD HTML 4.01 Frameset//">', "<html a=1>", "<head>", "</head>", "<body b=1>",
       "</body>", "</html>", "<title>", "</title>", "<meta>", "<base>", "<noscript>", "</noscript>", "<frameset>", "</frameset>",
-      "<frame>", "<noframes>", "</noframes>", "<!--c-->", " ", "x", "<br>", "</br>", "<link>", "<style>", "</style>", "<p>"]
+      "<frame>", "<noframes>", "</noframes>", "<!--c-->", " ", "x", "<br>", "</br>", "<link>", "<style>", "</style>", "<p>",
+      "<html a c=2>", "<body b c=2>"]      # (empty-valued attributes met again by a later <html>/<body> tag: merge rules)
 T5 = ["<svg>", "</svg>", "<math>", "</math>", "<mi>", "<mglyph>", "<annotation-xml encoding=text/html>", "<annotation-xml>",
       "<foreignObject>", "<desc>", "<title>", "<p>", "</p>", "<b>", "<font color=r>", "<font>", "<svg/>", "<![CDATA[x]]>", "x",
       "<table>", "<tr>", "</title>", "</foreignObject>", "<g xlink:href=a definitionurl=b>", "</mi>", "<br>", "</br>", "<select>", "</table>",
